@@ -559,6 +559,9 @@ func (x *Exec) runStmt(ctx context.Context, w wire.DataWriter, params []wire.Par
 			if x.Sched != nil {
 				x.Sched.Gate(ctx, S(op, "p"))
 			}
+		case "panic":
+			// a statement function that panics: inside Execute the library recovers and reports an error
+			panic("scripted handler panic")
 		case "ret":
 			if S(op, "r") == "nil" {
 				return nil
